@@ -125,6 +125,11 @@ def run_trace(rng, spec, nops, kinds=None, oracles=("xref", "sync", "ctx"), extr
                     and all(Fraction(c) != 0 for _, c in r0["st"]) and rule_genes is not None and rule_genes <= UNIV_G_SET:
                 modelled = True
                 line_op = {"op": "add_rxn_r", "r": r0["id"], "lb": r0["lb"], "ub": r0["ub"], "st": [[x, c] for x, c in r0["st"]], "rule": r0["rule"]}
+        if op["op"] == "remove_genes" and ex.depth == 0 and in_universe(ex.model) and all(g in UNIV_G_SET for g in op["gs"]):
+            # cobra.manipulation.remove_genes(model, genes, remove_reactions) outside a context: Core.removeGenes (rules pruned by the Lean model of
+            # _GeneRemover, reactions whose rule is false without the genes removed when asked for, genes leave the model)
+            modelled = True
+            line_op = {"op": "remove_genes", "gs": list(op["gs"]), "rr": bool(op["rr"])}
         if op["op"] == "add_model_mets" and len(op["ms"]) == 1 and op["ms"][0] in UNIV_M:
             # add_metabolites([Metabolite(m)]): Core.addMet (an id that is taken is filtered out)
             modelled = True
